@@ -17,7 +17,7 @@ func description(b []byte) ([]byte, error) {
 		return b, err
 	}
 
-	b = bytes.TrimLeft(b, "\r\n")
+	b = trimLeadingBlankLines(b)
 	b = bytes.TrimRight(b, "\r\n\t ")
 
 	lines := bytes.Split(b, []byte{'\n'})
@@ -53,6 +53,18 @@ func descriptionRemoveParentheses(b []byte) ([]byte, error) {
 		return bytes.Trim(bb, "\r\n"), nil
 	}
 	return b, nil
+}
+
+// trimLeadingBlankLines removes leading lines which are empty or consist of
+// whitespaces only.
+func trimLeadingBlankLines(b []byte) []byte {
+	for {
+		i := bytes.IndexByte(b, '\n')
+		if i == -1 || len(bytes.Trim(b[:i], "\t ")) != 0 {
+			return b
+		}
+		b = b[i+1:]
+	}
 }
 
 func longestWhitespacePrefix(bb [][]byte) []byte {
